@@ -143,7 +143,7 @@ def suite_tstep(ctx, n):
             # if the oracle behaves exactly like Appendix D with that selection
             _, T = E.run_batches(ctx, [E.case_line("spect", d, evs)], want_harness=False, nproc=1)
             tt = T[0].split(" ")
-            tc = [tt[i + 1] for i, t in enumerate(tt[:-1]) if t == "ret:MICROSTEPPED" and tt[i + 1].startswith("cfg:")]
+            tc = [t for t in tt if t.startswith("cfg:")]            # (the specification's trace reports the configuration after every macrostep)
             ts = []
             for c in tc:
                 if not ts or ts[-1] != c: ts.append(c)
